@@ -718,6 +718,17 @@ func exhaustiveC15(thorough bool, emit func(C15Case) bool) {
 			return
 		}
 	}
+	// members that share a prefix of 6..17 bytes and part ways right after it (the 8th, 9th, 16th
+	// byte): look-ups along one of them, a delete of the branch, look-ups again, an add below it
+	for _, n := range []int{6, 7, 8, 9, 15, 16, 17} {
+		pre := gen.B(bytes.Repeat([]byte("ab"), n/2+1)[:n])
+		cat := func(t string) gen.B { return append(bytes.Clone(pre), t...) }
+		h := []TrieOp{{Op: "add", S: cat("ax")}, {Op: "add", S: cat("by")}, {Op: "del", S: cat("a")}, {Op: "add", S: cat("az")}, {Op: "del", S: cat("b")},
+			{Op: "add", S: cat("bx")}, {Op: "del", S: cat("az")}, {Op: "add", S: cat("a")}, {Op: "del", S: pre}, {Op: "add", S: cat("ax")}}
+		if !emit(C15Case{Alphabet: gen.B("abxyz"), Ops: h}) || !emit(C15Case{Alphabet: gen.B("abxyz"), Ops: h, Rebuild: true}) {
+			return
+		}
+	}
 	// nodes with a child for every byte value
 	for _, h := range [][]TrieOp{
 		{{Op: "addall"}},
